@@ -1744,6 +1744,83 @@ theorem wdSets_withdrawn (ebgp : Bool) (u : CUpdate) (r mr : Option Reach) (un :
       ⟨famKey m.afi m.safi, m.nlri.map (padAddr · (if m.afi = 2 then 16 else 4))⟩ (by rw [hr]; simp [optList])
     exact mem_withdrawnOut this
 
+/-- what the packet-level proof establishes about the `Message` list of a run that is not a reset (the hypotheses of
+    `check_ok_msgs`, and the shape of the list when the framing is intact); used again by the end-to-end half -/
+structure OkFacts (c : Codec) (ebgp : Bool) (u : CUpdate) (cs : List Corr) (msgs : List VMsg) : Prop where
+  h1 : (ebgp && (reachMsgs msgs).any
+        (fun as => as.any fun a => a.code == 5 || a.code == 9 || a.code == 10)) = false
+  h2 : allIn (u.wd.map (padAddr · 4)) (withdrawnOut msgs FAM_IPV4) = true
+  h3 : Cls.weak ∉ allClasses c u cs →
+      setsWithdrawn (wdSets u) msgs = true ∧
+      ((Cls.taw ∈ allClasses c u cs ∨ Cls.tawOrReset ∈ allClasses c u cs) → tawDone u msgs = true) ∧
+      (tawDone u msgs = true ∨
+        ((∀ code, Cls.discardOrTaw code ∈ allClasses c u cs → ∀ as ∈ reachMsgs msgs, ∀ a ∈ as, a.code ≠ code) ∧
+         (∀ code d, Cls.dup code d ∈ allClasses c u cs → ∀ as ∈ reachMsgs msgs, believes as code d = false)))
+  h4 : prefixMustTaw c u cs = true → reachMsgs msgs = []
+  shape : Cls.weak ∉ allClasses c u cs → ∃ nh attrs errs,
+      msgs = validateUpdate ebgp (expReach u nh) (expMpReach u) (expUnreach u) (expMpUnreach u) attrs errs
+
+theorem run_facts (dec : HypDec) (hd : dec.NP) (p : Profile) (c : Codec) (ebgp : Bool) (u : CUpdate)
+    (cs : List Corr) (hwf : wfCase c u cs = true) :
+    (∃ msgs, runUpdate dec p c ebgp (render c u cs) = .ok msgs ∧ OkFacts c ebgp u cs msgs) ∨
+    (∃ e, runUpdate dec p c ebgp (render c u cs) = .reset e) := by
+  obtain ⟨hwl, _, _, _, _, hsize, _, _⟩ := wf_parts hwf
+  obtain ⟨hwd, _⟩ := wfLegacy_wd hwl
+  have hl := render_layout c u cs
+  have hlen := render_length c u cs
+  have hm := maxLen_le c
+  obtain ⟨d, htp⟩ := tryParse_layout (dec := dec) (p := p) hl hlen (by omega)
+  have hnp := parseUpdate_NP hd p c (render c u cs) ⟨1, 2, d⟩
+  obtain ⟨kept, cut, removed, hsp⟩ := split_exists c u cs
+  unfold runUpdate
+  rw [htp]
+  cases hres : parseUpdateWith updateLens dec p c (render c u cs) ⟨1, 2, d⟩ with
+  | panic => rw [hres] at hnp; exact absurd hnp (by simp [Out.NP])
+  | err e => right; exact ⟨e, rfl⟩
+  | ok m =>
+    left
+    refine ⟨validateMessage ebgp m, rfl, ?_⟩
+    have hlens := updateLens_layout hl hlen (by omega)
+    have hun := legacyUnreach_render (dec := dec) hl hlen hwd
+    obtain ⟨h1, h2⟩ := weak_obligations ebgp hlens hun hres
+    refine ⟨h1, h2, ?_, (fun hp => weak_prefix_no_reach ebgp hwf hl hlen hp hres), ?_⟩
+    · intro hnw
+      obtain ⟨s1, s', attrs, hinv, herrs, _, htrunc, hparse, hcodes, hkeeps⟩ :=
+        nonweak_parse hd ⟨1, 2, d⟩ hwf hsp hnw hl hlen
+      rw [hres] at hparse
+      injection hparse with hparse
+      subst hparse
+      have hctx : Ctx c u cs kept removed cut s1 s' attrs (23 + (wdB c u).length + (blockBytes c u cs).length) :=
+        ⟨hwf, hsp, hnw, hinv, herrs, htrunc, hcodes, hkeeps⟩
+      simp only [validateMessage]
+      refine ⟨wdSets_withdrawn _ _ _ _ _ _ _, ?_, ?_⟩
+      · intro hmust
+        apply tawDone_of_decision
+        rcases hmust with hx | hx
+        · exact hctx.taw hx (Or.inl rfl) _
+        · exact hctx.taw hx (Or.inr rfl) _
+      · cases htd : tawDecision (expReach u s1.nexthop) (expMpReach u) attrs
+            (finalErrs s' (legacyNlriBytes c u cs).length (23 + (wdB c u).length + (blockBytes c u cs).length)) with
+        | true => left; exact tawDone_of_decision htd
+        | false =>
+          right
+          constructor
+          · intro code hx as has a ha
+            rw [validate_reach_attrs as has] at ha
+            rcases hctx.disc hx (legacyNlriBytes c u cs).length with h | h
+            · rw [htd] at h; cases h
+            · exact h a (keptAttrs_sub _ _ a ha)
+          · intro code dd hx as has
+            rw [validate_reach_attrs as has]
+            exact hctx.dup hx _ (keptAttrs_sub _ _)
+    · intro hnw
+      obtain ⟨s1, s', attrs, _, _, _, _, hparse, _, _⟩ :=
+        nonweak_parse hd ⟨1, 2, d⟩ hwf hsp hnw hl hlen
+      rw [hres] at hparse
+      injection hparse with hparse
+      subst hparse
+      exact ⟨_, _, _, rfl⟩
+
 /-- byte-level master theorem: the reference checker accepts what the model does with every rendered case -/
 theorem check_run_ok (dec : HypDec) (hd : dec.NP) (hde : dec.E3) (p : Profile) (c : Codec) (ebgp : Bool) (u : CUpdate)
     (cs : List Corr) : USpec.check c ebgp u cs (runUpdate dec p c ebgp (render c u cs)) = .ok := by
